@@ -52,7 +52,8 @@ macro_rules! fam_contract {
             let mut env = $crate::refsem::Env::new($x, &$t);
             env.perm = perms[k];
             let e = $crate::refsem::parse(&$ast, &mut env);
-            ok_acc |= e.is_some() == acc;
+            // error-free acceptance <=> the grammar matches the whole input without any non-fatal error
+            ok_acc |= ((e.is_some() && env.n_emis == 0) == acc) && (e.is_some() == r.has_output());
             k += 1;
         }
         $crate::check!(concat!($P, ":accepts-iff-whole-input-matches"), ok_acc);
@@ -69,13 +70,33 @@ macro_rules! fam_contract {
 /// furthest failure.
 #[macro_export]
 macro_rules! fam_emis {
-    ($P:literal, $p:expr, $ast:expr, $x:expr, $t:expr) => {{
+    ($P:literal, $p:expr, $ast:expr, $x:expr, $t:expr) => {
+        $crate::fam_emis!($P, $p, $ast, $x, $t, [0u8])
+    };
+    ($P:literal, $p:expr, $ast:expr, $x:expr, $t:expr, $perms:expr) => {{
         use $crate::errs::MkErr;
         let r = $p.parse($x);
         $crate::contract(&r);
         let (out, errs) = r.into_output_errors();
+        // evaluate refsem under each permissive-corner selector; keep the first that reproduces the output
+        // (the output embeds the consumed extents, so it determines which reading chumsky took)
+        let perms: &[u8] = &$perms;
         let mut env = $crate::refsem::Env::new($x, &$t);
-        let e = $crate::refsem::parse(&$ast, &mut env);
+        env.perm = perms[0];
+        let mut e = $crate::refsem::parse(&$ast, &mut env);
+        let mut k = 1;
+        while k < perms.len() {
+            if !$crate::obs::same(&out, &e) {
+                let mut env2 = $crate::refsem::Env::new($x, &$t);
+                env2.perm = perms[k];
+                let e2 = $crate::refsem::parse(&$ast, &mut env2);
+                if $crate::obs::same(&out, &e2) {
+                    env = env2;
+                    e = e2;
+                }
+            }
+            k += 1;
+        }
         $crate::check!(concat!($P, ":acceptance"), e.is_some() == out.is_some());
         $crate::check!(concat!($P, ":output"), $crate::obs::same(&out, &e));
         if out.is_some() && e.is_some() && !env.overflow {
@@ -133,13 +154,41 @@ macro_rules! fam_far {
             if let Some(le) = errs.last() {
                 let far = env.far;
                 $crate::check!(concat!($P, ":span-well-formed"), le.start <= le.end && le.end <= $x.len());
-                $crate::check!(concat!($P, ":not-earlier-than-furthest"), le.start >= far.pos);
-                $crate::check!(concat!($P, ":not-later-than-furthest"), le.start <= far.pos);
-                if le.start == far.pos {
-                    $crate::check!(concat!($P, ":expected-missing"), le.exp & far.exp == far.exp);
-                    $crate::check!(concat!($P, ":expected-extra"), le.exp & !far.exp == 0);
-                    $crate::check!(concat!($P, ":custom-preserved"), !far.custom || le.custom);
+                // a user-supplied error (try_map / custom) is preserved iff one was raised at the furthest position
+                $crate::check!(concat!($P, ":custom-preserved"), !far.custom || le.custom);
+                $crate::check!(concat!($P, ":custom-spurious"), far.custom || !le.custom);
+                if !le.custom {
+                    // (the span of a user-supplied error is the user's; positions are judged on parser-made errors)
+                    $crate::check!(concat!($P, ":not-earlier-than-furthest"), le.start >= far.pos);
+                    $crate::check!(concat!($P, ":not-later-than-furthest"), le.start <= far.pos);
+                    let want = if le.start < $x.len() { Some($x[le.start]) } else { None };
+                    $crate::check!(concat!($P, ":found-is-token-at-start"), le.found == want);
                 }
+                $crate::check!(concat!($P, ":expected-missing"), le.exp & far.exp == far.exp);
+                $crate::check!(concat!($P, ":expected-extra"), le.exp & !far.exp == 0);
+            }
+        }
+        $crate::cover!("cover:accept", out.is_some());
+        $crate::cover!("cover:reject", out.is_none());
+    }};
+}
+
+/// C06, reduced: only the error's own well-formedness (span inside the input, `found` = token at the start of
+/// the span, None only at end of input). Used where the *position* of the failure is a permissive corner
+/// (a rejecting `filter`).
+#[macro_export]
+macro_rules! fam_far_found {
+    ($P:literal, $p:expr, $ast:expr, $x:expr, $t:expr) => {{
+        let r = $p.parse($x);
+        $crate::contract(&r);
+        let (out, errs) = r.into_output_errors();
+        let mut env = $crate::refsem::Env::new($x, &$t);
+        let e = $crate::refsem::parse(&$ast, &mut env);
+        $crate::check!(concat!($P, ":acceptance"), e.is_some() == out.is_some());
+        if out.is_none() {
+            $crate::check!(concat!($P, ":exactly-one-error"), errs.len() == 1);
+            if let Some(le) = errs.last() {
+                $crate::check!(concat!($P, ":span-well-formed"), le.start <= le.end && le.end <= $x.len());
                 let want = if le.start < $x.len() { Some($x[le.start]) } else { None };
                 $crate::check!(concat!($P, ":found-is-token-at-start"), le.custom || le.found == want);
             }
